@@ -13,6 +13,8 @@ def From.reindex (σ : Nat → Nat) : From → From
   | .cross l r => .cross (l.reindex σ) (r.reindex σ)
   | .inner l r on => .inner (l.reindex σ) (r.reindex σ) on
   | .left l r on => .left (l.reindex σ) (r.reindex σ) on
+  | .right l r on => .right (l.reindex σ) (r.reindex σ) on
+  | .full l r on => .full (l.reindex σ) (r.reindex σ) on
 
 def SubQ.reindex (σ : Nat → Nat) (s : SubQ) : SubQ := { s with tbl := σ s.tbl }
 
@@ -45,6 +47,8 @@ theorem From.width_reindex (h : ∀ j, d1.tables[j]? = d2.tables[σ j]?) (f : Fr
   | cross l r ihl ihr => simp [From.width, From.reindex, ihl, ihr]
   | inner l r on ihl ihr => simp [From.width, From.reindex, ihl, ihr]
   | left l r on ihl ihr => simp [From.width, From.reindex, ihl, ihr]
+  | right l r on ihl ihr => simp [From.width, From.reindex, ihl, ihr]
+  | full l r on ihl ihr => simp [From.width, From.reindex, ihl, ihr]
 
 theorem From.eval_reindex (h : ∀ j, d1.tables[j]? = d2.tables[σ j]?) (f : From) :
     f.eval d1 = (f.reindex σ).eval d2 := by
@@ -53,6 +57,9 @@ theorem From.eval_reindex (h : ∀ j, d1.tables[j]? = d2.tables[σ j]?) (f : Fro
   | cross l r ihl ihr => simp only [From.eval, From.reindex, ihl, ihr]
   | inner l r on ihl ihr => simp only [From.eval, From.reindex, ihl, ihr]
   | left l r on ihl ihr => simp only [From.eval, From.reindex, ihl, ihr, From.width_reindex h r]
+  | right l r on ihl ihr => simp only [From.eval, From.reindex, ihl, ihr, From.width_reindex h l]
+  | full l r on ihl ihr =>
+    simp only [From.eval, From.reindex, ihl, ihr, From.width_reindex h l, From.width_reindex h r]
 
 theorem SubQ.rows_reindex (h : ∀ j, d1.tables[j]? = d2.tables[σ j]?) (outer : Row) (s : SubQ) :
     s.rows d1 outer = (s.reindex σ).rows d2 outer := by
